@@ -177,9 +177,10 @@ Proof.
   - destruct (nth_error (rthreads s) x) as [th|] eqn:Ht; [|discriminate].
     destruct (rcur th) as [o|]; [|discriminate].
     pose proof (sumf_upd_nth sched_ind (rthreads s) x) as U.
-    destruct (rpcof th) eqn:Epc; [destruct o|];
+    destruct (rpcof th) eqn:Epc; [destruct o| |];
       repeat match type of H with
              | context [if Nat.ltb ?a ?b then _ else _] => destruct (Nat.ltb_spec a b)
+             | context [if Nat.eqb ?a ?b then _ else _] => destruct (Nat.eqb_spec a b)
              end;
       inversion H; subst s'; clear H;
       match goal with |- context [upd_nth (rthreads s) x ?t'] => specialize (U t' th Ht) end;
